@@ -32,7 +32,7 @@ def entry_from(atoms_like, mask):
            anchors=["polyply.src.topology:match_dihedral_interaction_types", "polyply.src.topology:_wildcard_dih"],
            selector_only=True, must_cover=["match", "no match"],
            outside=["more than two competing table entries (thorough: three)", "tie-breaking among equally specific entries (left open by the statement)"],
-           bounds={"quick": dict(types="AB", nentries=2), "thorough": dict(types="ABC", nentries=2)},
+           bounds={"quick": dict(types="AB", nentries=2, etypes="AB"), "thorough": dict(types="ABC", nentries=2, etypes="AB")},
            budget={"quick": 200, "thorough": 1500})
 def dihedral_match(sx, B):
     """Real match_dihedral_interaction_types: the four atom types (selectors), and a table of entries each an arbitrary type
@@ -43,7 +43,7 @@ def dihedral_match(sx, B):
     atoms = tuple(sx.sel("a%d" % i, T) for i in range(4))
     entries = []
     for e in range(B["nentries"]):
-        entries.append(tuple(sx.sel("e%d_%d" % (e, i), T + ["X"]) for i in range(4)))
+        entries.append(tuple(sx.sel("e%d_%d" % (e, i), list(B["etypes"]) + ["X"]) for i in range(4)))
     table = {}
     for k, e in enumerate(entries):
         table.setdefault(e, [([str(k)], None)])
@@ -69,6 +69,8 @@ TOP = """[ defaults ]
 {nonbond}
 [ bondtypes ]
 {bondtypes}
+[ constrainttypes ]
+{constrainttypes}
 [ angletypes ]
 {angletypes}
 [ dihedraltypes ]
@@ -88,6 +90,8 @@ molA 1
 molB 1
 [ atoms ]
 {atomsA}
+[ constraints ]
+{bondsA}
 [ dihedrals ]
 {dihsA}
 [ system ]
@@ -119,7 +123,7 @@ def _render(atoms, dih_entries, direction, counts, opls, use_define, bond_rev):
     order = "1 2 3 4" if direction == 0 else "4 3 2 1"
     mols = "\n".join("%s %d" % (n, c) for n, c in counts)
     text = TOP.format(comb=1, genpairs="no", atomtypes="\n".join(at_lines), nonbond="", bondtypes="\n".join(bond_lines),
-                      angletypes="\n".join(angle_lines), dihtypes="\n".join(dih_lines), defines=defines, atomsA=atomsA,
+                      constrainttypes="%s %s 2 0.1111" % (bt(b01[0]), bt(b01[1])), angletypes="\n".join(angle_lines), dihtypes="\n".join(dih_lines), defines=defines, atomsA=atomsA,
                       bondsA="1 2 1", anglesA="1 2 3 2", dihsA=order + " 9", molecules=mols)
     if opls:
         text = "#define _FF_OPLS\n" + text
@@ -166,6 +170,9 @@ def _run_bonded(sx, atoms, ents, direction, counts, opls, use_define, bond_rev):
         sx.claim(ok_any, "every instance carries all terms of the least-wildcarded matching dihedral type exactly once",
                  lambda: what() + " instance %d (%s) has %r" % (mi, mol.mol_name, got))
         sx.claim(all(tuple(d.atoms) == tuple(dihs[0].atoms) for d in dihs), "terms are on the atoms as listed")
+        if mol.mol_name == "molB":
+            c = mol.molecule.interactions["constraints"][0]
+            sx.claim(c.parameters == ["2", "0.1111"], "a constraint gets the constraint type, not the bond type of the same atom types", lambda: repr(c))
         if mol.mol_name == "molA":
             b = mol.molecule.interactions["bonds"][0]
             sx.claim(b.parameters == ["1", "0.47", "1250"], "bond type found forwards or backwards", lambda: repr(b))
